@@ -218,13 +218,14 @@ def cookieOf (s : Bytes) (pos : Nat) : Cookie :=
   | some i => { name := trimAscii (s.take i), value := some (trimAscii (s.drop (i + 1))), position := pos }
   | none => { name := s, value := none, position := pos }
 
+/-- the trimmed, non-empty `;`-separated pieces of one cookie header value -/
+def piecesOf : Option Bytes → List Bytes
+  | some s => ((splitOn 59 s).map trimAscii).filter (fun p => !p.isEmpty)
+  | none => []
+
 /-- `parse_cookies_from_headers` -/
 def parseCookies (values : List (Option Bytes)) : List Cookie :=
-  let pieces := values.flatMap fun v =>
-    match v with
-    | some s => ((splitOn 59 s).map trimAscii).filter (fun p => !p.isEmpty)
-    | none => []
-  (pieces.zipIdx).map fun (p, i) => cookieOf p i
+  ((values.flatMap piecesOf).zipIdx).map fun (p, i) => cookieOf p i
 
 def hdrLen (h : Hdr) : Nat := h.name.length + (h.value.map List.length).getD 0
 
@@ -232,6 +233,20 @@ def hdrLen (h : Hdr) : Nat := h.name.length + (h.value.map List.length).getD 0
 (`headers_map.insert` overwrites) -/
 def lastValue (hs : List Hdr) (key : Bytes) : Option Bytes :=
   (hs.filter (fun h => lowerAscii h.name == key && h.value.isSome)).getLast?.bind (·.value)
+
+/-- the part of `parse_request` after `build_stream` -/
+def finishRequest (st : StreamAcc) (sid : Nat) (frames : List Frame) : Except ParseErr (Option Request) :=
+  match st.method, st.path with
+  | some m, some p =>
+    let cookieHdrs := st.headers.filter (fun h => lowerAscii h.name == nCookie)
+    let referer := lastValue (st.headers.filter (fun h => lowerAscii h.name == nReferer)) nReferer
+    let headers := st.headers.filter (fun h => lowerAscii h.name != nCookie && lowerAscii h.name != nReferer)
+    .ok (some { method := m, path := p, authority := st.authority, scheme := st.scheme,
+                headers := headers, cookies := parseCookies (cookieHdrs.map (·.value)),
+                referer := referer, streamId := sid, headerCount := headers.length,
+                totalHeadersLength := (headers.map hdrLen).sum,
+                frameSequence := frames.map (·.ty), settings := extractH2Settings frames })
+  | _, _ => .error .missingRequiredHeaders
 
 /-- `Http2Parser::parse_request` -/
 def parseRequest (H : Hpack) (data : Bytes) : Except ParseErr (Option Request) :=
@@ -244,18 +259,16 @@ def parseRequest (H : Hpack) (data : Bytes) : Except ParseErr (Option Request) :
       | some sid =>
         match buildStream H sid frames with
         | none => .error .hpackDecodingFailed
-        | some st =>
-          match st.method, st.path with
-          | some m, some p =>
-            let cookieHdrs := st.headers.filter (fun h => lowerAscii h.name == nCookie)
-            let referer := lastValue (st.headers.filter (fun h => lowerAscii h.name == nReferer)) nReferer
-            let headers := st.headers.filter (fun h => lowerAscii h.name != nCookie && lowerAscii h.name != nReferer)
-            .ok (some { method := m, path := p, authority := st.authority, scheme := st.scheme,
-                        headers := headers, cookies := parseCookies (cookieHdrs.map (·.value)),
-                        referer := referer, streamId := sid, headerCount := headers.length,
-                        totalHeadersLength := (headers.map hdrLen).sum,
-                        frameSequence := frames.map (·.ty), settings := extractH2Settings frames })
-          | _, _ => .error .missingRequiredHeaders
+        | some st => finishRequest st sid frames
+
+/-- the part of `parse_response` after `build_stream` -/
+def finishResponse (st : StreamAcc) (sid : Nat) (frames : List Frame) : Except ParseErr (Option Response) :=
+  match st.status with
+  | some s =>
+    .ok (some { status := s, headers := st.headers, streamId := sid, headerCount := st.headers.length,
+                totalHeadersLength := (st.headers.map hdrLen).sum, frameSequence := frames.map (·.ty),
+                server := lastValue st.headers nServer, contentType := lastValue st.headers nContentType })
+  | none => .error .missingRequiredHeaders
 
 /-- `Http2Parser::parse_response` -/
 def parseResponse (H : Hpack) (data : Bytes) : Except ParseErr (Option Response) :=
@@ -266,13 +279,7 @@ def parseResponse (H : Hpack) (data : Bytes) : Except ParseErr (Option Response)
     | some sid =>
       match buildStream H sid frames with
       | none => .error .hpackDecodingFailed
-      | some st =>
-        match st.status with
-        | some s =>
-          .ok (some { status := s, headers := st.headers, streamId := sid, headerCount := st.headers.length,
-                      totalHeadersLength := (st.headers.map hdrLen).sum, frameSequence := frames.map (·.ty),
-                      server := lastValue st.headers nServer, contentType := lastValue st.headers nContentType })
-        | none => .error .missingRequiredHeaders
+      | some st => finishResponse st sid frames
 
 /-! ### http2_process.rs -/
 
